@@ -258,7 +258,11 @@ func (l *SocketListener) Start(upstreams *upstream.Upstreams, config cert.Config
 
 	log.Infof("Starting SocketListener %v", l.String())
 	l.shutdown = make(chan bool, 1)
-	l.netListener, err = net.Listen(l.Address.Scheme, l.Address.Host)
+	location := l.Address.Host
+	if strings.HasPrefix(l.Address.Scheme, "unix") {
+		location = l.Address.Location()
+	}
+	l.netListener, err = net.Listen(l.Address.Scheme, location)
 
 	if err == nil {
 		go l.accept()
